@@ -98,11 +98,19 @@ def run_shard(shard, tier, seed, acc) -> None:
             for p in ints_for(kl):
                 for g in ints_for(kl):
                     chk(acc, "FFCDHParameters", [kl, str(p), str(g)], lambda kl=kl, p=p, g=g: Gm.FFCDHParameters(key_length=kl, field_order=p, generator=g), gkdi.pack_dh_params(kl, p, g), Gm.FFCDHParameters.unpack)
+        # the well-known group (RFC 5114 2.3, the KDS default) with ONE field altered at a time: a recognised prime proves nothing about the generator
+        P_, G_ = gkdi.RFC5114_P, gkdi.RFC5114_G
+        for kl, p, g in [(256, P_, G_)] + [(256, P_, g2) for g2 in (0, 1, 2, G_ + 1, G_ - 1, G_ >> 8, G_ ^ 1, P_ - 1, P_)] + [(256, p2, G_) for p2 in (P_ + 2, P_ - 2, P_ >> 8, P_ ^ (1 << 2047), G_)] + [(257, P_, G_), (512, P_, 2)]:
+            chk(acc, "FFCDHParameters", [kl, str(p), str(g)], lambda kl=kl, p=p, g=g: Gm.FFCDHParameters(key_length=kl, field_order=p, generator=g), gkdi.pack_dh_params(kl, p, g), Gm.FFCDHParameters.unpack)
         acc.sample({"FFCDHParameters": {"key_length": 2, "p": 65267, "g": 4}, "bytes": gkdi.pack_dh_params(2, 65267, 4).hex()})
     elif what == "dhkey":
         for kl in (1, 2, 32, 48, 66, 256):
             vals = ints_for(kl)
             for p, g, y in itertools.product(vals, vals[:4], vals):
+                chk(acc, "FFCDHKey", [kl, str(p), str(g), str(y)], lambda kl=kl, p=p, g=g, y=y: Gm.FFCDHKey(key_length=kl, field_order=p, generator=g, public_key=y), gkdi.pack_dh_key(kl, p, g, y), Gm.FFCDHKey.unpack)
+        P_, G_ = gkdi.RFC5114_P, gkdi.RFC5114_G
+        for kl, p, g in [(256, P_, G_)] + [(256, P_, g2) for g2 in (0, 1, 2, G_ + 1, G_ - 1, G_ >> 8, G_ ^ 1, P_ - 1, P_)] + [(256, p2, G_) for p2 in (P_ + 2, P_ - 2, P_ >> 8, P_ ^ (1 << 2047), G_)] + [(257, P_, G_), (512, P_, 2)]:
+            for y in (1, 2, G_, P_ - 1, pow(G_, 0xC0FFEE, P_)):
                 chk(acc, "FFCDHKey", [kl, str(p), str(g), str(y)], lambda kl=kl, p=p, g=g, y=y: Gm.FFCDHKey(key_length=kl, field_order=p, generator=g, public_key=y), gkdi.pack_dh_key(kl, p, g, y), Gm.FFCDHKey.unpack)
         acc.sample({"FFCDHKey": {"key_length": 2, "p": 65267, "g": 4, "y": 1}, "bytes": gkdi.pack_dh_key(2, 65267, 4, 1).hex()})
     elif what == "eckey":
